@@ -7,7 +7,7 @@ import numpy as np
 
 from .. import gen
 from ..monitors import items as MI
-from ..util import rng_for
+from ..util import maxabs, rng_for
 
 
 def materials(rng, which):
@@ -133,6 +133,17 @@ def case_history_material(which, kind, fam, rep):
         body.results.update_statevars()
         # next increment (state changes), evaluated in the order Newton uses: vector, then matrix
         field[0].values[:] = field[0].values + gen.random_displacement(rng, mesh, grad=0.6 * amp)
+        label = "SolidBody[%s,history]" % which
+        if which == "ogden-roxburgh":
+            # the response has a kink where the strain energy passes the stored maximum (loading <-> unloading switch): such
+            # points are outside the quantifier (the response is not differentiable there); a point closer to the switch than
+            # the finite-difference stencil would look like a small tangent error
+            Fq = field.extract()[0]
+            W = np.asarray(umat.material.function([Fq, None])[0], float)
+            Wmax = np.asarray(body.results.statevars[0], float)
+            if np.min(np.abs(W - Wmax)) < 2e-3 * max(maxabs(Wmax), maxabs(W)):
+                run.skip("items.tangent", "a quadrature point sits on the loading/unloading switch of the pseudo-elastic model (kink)")
+                return
         label = "SolidBody[%s,history]" % which
         evaluate(run, [body], field, label, rng, conservative=False, order=rep % 3)
         run.configs.add(str((label, kind, fam)))
